@@ -237,7 +237,7 @@ def run(ck: common.Check):
         parts = [{"stream": "annot", "start": w * per_a, "count": per_a, "gcc_limit": lim_a},
                  {"stream": "progen", "start": w * per_p, "count": per_p, "gcc_limit": lim_p}]
         jobs.append({"seed": ck.seed, "parts": parts, "header_every": 4, "out": str(wd / ("w%d.jsonl" % w)),
-                     "workdir": str(wd / ("gcc%d" % w)), "gen_budget_s": ck.n(70, 720), "gcc_budget_s": ck.n(40, 420)})
+                     "workdir": str(wd / ("gcc%d" % w)), "gen_budget_s": ck.n(70, 600), "gcc_budget_s": ck.n(40, 330)})
     for j in jobs:
         os.makedirs(j["workdir"], exist_ok=True)
     t0 = time.time()
